@@ -42,11 +42,12 @@ Definition lo_remaining (o : lorder) : Z :=
   end.
 
 (* ---- generic updates ---- *)
-Fixpoint oupd (name : Z) (f : lorder -> lorder) (l : list lorder) : list lorder :=
-  match l with [] => [] | o :: r => if lo_name o =? name then f o :: r else o :: oupd name f r end.
+(* names / trade ids are unique in every run (checked by the correspondence), so "the" order is every order of that name *)
+Definition oupd (name : Z) (f : lorder -> lorder) (l : list lorder) : list lorder :=
+  map (fun o => if lo_name o =? name then f o else o) l.
 Definition oget (name : Z) (l : list lorder) : option lorder := find (fun o => lo_name o =? name) l.
-Fixpoint tupd' (id : Z) (f : ltrade -> ltrade) (l : list ltrade) : list ltrade :=
-  match l with [] => [] | t :: r => if lt_id t =? id then f t :: r else t :: tupd' id f r end.
+Definition tupd' (id : Z) (f : ltrade -> ltrade) (l : list ltrade) : list ltrade :=
+  map (fun t => if lt_id t =? id then f t else t) l.
 Definition tget' (id : Z) (l : list ltrade) : option ltrade := find (fun t => lt_id t =? id) l.
 
 Definition set_lo (o : lorder) (st : status) (cs : list status) : lorder :=
@@ -136,62 +137,62 @@ Definition pkg_orders (s : lstate) (names : list Z) : list Z :=
 Fixpoint zip {A B} (a : list A) (b : list B) : list (A * B) :=
   match a, b with x :: a', y :: b' => (x, y) :: zip a' b' | _, _ => [] end.
 
+Definition upd_place_resp (o : lorder) (b : option Z) (m : Z) (zero : bool) (setbet : bool) : lorder :=
+  {| lo_name := lo_name o; lo_trade := lo_trade o; lo_strat := lo_strat o; lo_sel := lo_sel o; lo_size := lo_size o; lo_price := lo_price o;
+     lo_status := lo_status o; lo_log := lo_log o; lo_complete := lo_complete o;
+     lo_bet := if setbet then match b with Some _ => b | None => lo_bet o end else lo_bet o; lo_async := lo_async o;
+     lo_view := lo_view o; lo_place_resp := Some (b, m, zero); lo_in_live := lo_in_live o; lo_in_blotter := lo_in_blotter o; lo_newprice := lo_newprice o |}.
+(* _order_logger: responses.placed(report); bet id if the report carries one *)
+Definition setbet (s : lstate) (n : Z) (b : option Z) (m : Z) : lstate := set_fields s n (fun o => upd_place_resp o b m false true).
+(* FAILURE: order.current_order.bet_id is None -> size_remaining forced to 0 on that object (the place report) *)
+Definition force_zero (s : lstate) (n : Z) (b : option Z) : lstate :=
+  match oget n (ls_orders s) with
+  | Some o => match lo_view o, b with
+              | None, None => set_fields s n (fun o => upd_place_resp o None 0 true false)
+              | _, _ => s
+              end
+  | None => s
+  end.
+Definition place_body (n : Z) (r : pstat) (s : lstate) : lstate :=
+  match r with
+  | PSuccess os b m =>
+      let s := setbet s n b m in
+      if os =? 1 then s else if os =? 2 then order_status s n SExecComplete else order_status s n SExecutable
+  | PFailure b => order_status (force_zero (setbet s n b 0) n b) n SExecComplete
+  | PTimeout b => setbet s n b 0
+  end.
 Definition exec_place (s : lstate) (names : list Z) (reports : list pstat) : lstate :=
-  let s1 := fold_left (fun s nr =>
-      let '(n, r) := nr in
-      with_trade s n (fun s =>
-        let setbet (b : option Z) (m : Z) (s : lstate) :=
-          set_fields s n (fun o => {| lo_name := lo_name o; lo_trade := lo_trade o; lo_strat := lo_strat o; lo_sel := lo_sel o; lo_size := lo_size o; lo_price := lo_price o;
-                                     lo_status := lo_status o; lo_log := lo_log o; lo_complete := lo_complete o; lo_bet := match b with Some _ => b | None => lo_bet o end; lo_async := lo_async o;
-                                     lo_view := lo_view o; lo_place_resp := Some (b, m, false); lo_in_live := lo_in_live o; lo_in_blotter := lo_in_blotter o; lo_newprice := lo_newprice o |}) in
-        match r with
-        | PSuccess os b m =>
-            let s := setbet b m s in
-            if os =? 1 then s else if os =? 2 then order_status s n SExecComplete else order_status s n SExecutable
-        | PFailure b =>
-            let s := setbet b 0 s in
-            (* order.current_order.bet_id is None -> size_remaining forced to 0 on that object *)
-            let s := match oget n (ls_orders s) with
-                     | Some o => match lo_view o, b with
-                                 | None, None => set_fields s n (fun o => {| lo_name := lo_name o; lo_trade := lo_trade o; lo_strat := lo_strat o; lo_sel := lo_sel o; lo_size := lo_size o; lo_price := lo_price o;
-                                                                             lo_status := lo_status o; lo_log := lo_log o; lo_complete := lo_complete o; lo_bet := lo_bet o; lo_async := lo_async o;
-                                                                             lo_view := lo_view o; lo_place_resp := Some (None, 0, true); lo_in_live := lo_in_live o; lo_in_blotter := lo_in_blotter o; lo_newprice := lo_newprice o |})
-                                 | _, _ => s
-                                 end
-                     | None => s
-                     end in
-            order_status s n SExecComplete
-        | PTimeout b => setbet b 0 s
-        end)) (zip (pkg_orders s names) reports) s in
+  let s1 := fold_left (fun s (nr : Z * pstat) => with_trade s (fst nr) (place_body (fst nr) (snd nr))) (zip (pkg_orders s names) reports) s in
   add_tx s1 (Z.of_nat (length (pkg_orders s1 names))) 0.
 
 (* cancel reports carry the bet id of their instruction; they may come in any order or be missing *)
+Definition cancel_status (remaining : Z) (r : cstat) : status :=
+  match r with
+  | CSuccess sc => if (sc =? remaining) || (remaining =? 0) then SExecComplete else SExecutable
+  | CFailure true => SExecComplete
+  | CFailure false => SExecutable
+  | CTimeout => SExecutable
+  end.
+Definition cancel_body (n : Z) (r : cstat) (s : lstate) : lstate :=
+  match oget n (ls_orders s) with
+  | None => s
+  | Some o => order_status s n (cancel_status (lo_remaining o) r)
+  end.
+Definition by_bet (s : lstate) (pk : list Z) (b : Z) : option Z :=
+  find (fun n => match oget n (ls_orders s) with Some o => opt_eqb Z.eqb (lo_bet o) (Some b) | None => false end) pk.
+Definition cancel_step (s0 : lstate) (pk : list Z) (acc : lstate * list Z * Z) (br : Z * cstat) : lstate * list Z * Z :=
+  let '(s, rest, nf) := acc in
+  match by_bet s0 pk (fst br) with
+  | None => acc                                        (* (order_lookup.pop would raise KeyError: not produced by an exchange) *)
+  | Some n =>
+      if negb (existsb (Z.eqb n) rest) then acc else
+      (with_trade s n (cancel_body n (snd br)), filter (fun x => negb (x =? n)) rest, nf + match snd br with CFailure _ => 1 | _ => 0 end)
+  end.
 Definition exec_cancel (s : lstate) (names : list Z) (reports : list (Z * cstat)) : lstate :=
   let pk := pkg_orders s names in
-  let by_bet (b : Z) := find (fun n => match oget n (ls_orders s) with Some o => opt_eqb Z.eqb (lo_bet o) (Some b) | None => false end) pk in
-  let '(s1, rest, nf) := fold_left (fun (acc : lstate * list Z * Z) br =>
-      let '(s, rest, nf) := acc in
-      let '(b, r) := br in
-      match by_bet b with
-      | None => acc
-      | Some n =>
-        if negb (existsb (Z.eqb n) rest) then acc else
-        let rest' := filter (fun x => negb (x =? n)) rest in
-        let s' := with_trade s n (fun s =>
-            match oget n (ls_orders s) with
-            | None => s
-            | Some o =>
-              match r with
-              | CSuccess sc => if (sc =? lo_remaining o) || (lo_remaining o =? 0) then order_status s n SExecComplete else order_status s n SExecutable
-              | CFailure true => order_status s n SExecComplete
-              | CFailure false => order_status s n SExecutable
-              | CTimeout => order_status s n SExecutable
-              end
-            end) in
-        (s', rest', nf + match r with CFailure _ => 1 | _ => 0 end)
-      end) reports (s, pk, 0) in
-  let s2 := fold_left (fun s n => with_trade s n (fun s => order_status s n SExecutable)) rest s1 in
-  add_tx s2 0 nf.
+  let acc := fold_left (cancel_step s pk) reports (s, pk, 0) in
+  let s2 := fold_left (fun s n => with_trade s n (fun s => order_status s n SExecutable)) (snd (fst acc)) (fst (fst acc)) in
+  add_tx s2 0 (snd acc).
 
 Definition exec_update (s : lstate) (names : list Z) (reports : list ustat) : lstate :=
   let s1 := fold_left (fun s nr => with_trade s (fst nr) (fun s => order_status s (fst nr) SExecutable)) (zip (pkg_orders s names) reports) s in
@@ -202,84 +203,92 @@ Definition new_lorder (name tid strat sel size price : Z) (bet : option Z) : lor
      lo_status := SNone; lo_log := []; lo_complete := false; lo_bet := bet; lo_async := false; lo_view := None; lo_place_resp := None;
      lo_in_live := false; lo_in_blotter := false; lo_newprice := None |}.
 
+(* trade.create_order_replacement + responses.placed(report) + market.place_order(execute=False) + executable() *)
+Definition add_replacement (s : lstate) (o0 : lorder) (bet price size : Z) : lstate :=
+  let nn := ls_next_name s in
+  let r := {| lo_name := nn; lo_trade := lo_trade o0; lo_strat := lo_strat o0; lo_sel := lo_sel o0; lo_size := size; lo_price := price;
+              lo_status := SPending; lo_log := [SPending]; lo_complete := false; lo_bet := Some bet; lo_async := false; lo_view := None;
+              lo_place_resp := Some (Some bet, 0, false); lo_in_live := true; lo_in_blotter := true; lo_newprice := None |} in
+  let s := {| ls_orders := ls_orders s ++ [r]; ls_trades := ls_trades s; ls_ctx := ls_ctx s; ls_bet_lookup := ls_bet_lookup s ++ [(Some bet, nn)];
+              ls_tx := ls_tx s; ls_tx_failed := ls_tx_failed s; ls_next_name := nn + 1; ls_next_trade := ls_next_trade s; ls_complete := ls_complete s |} in
+  order_status s nn SExecutable.
+Definition replace_body (n : Z) (o0 : lorder) (r : rstat) (s : lstate) : lstate :=
+  let '(RReport c p) := r in
+  let s := match c with
+           | CSuccess _ => order_status s n SExecComplete
+           | CFailure _ => order_status s n SExecutable
+           | CTimeout => order_status s n SExecutable
+           end in
+  match p with
+  | Some (bet, price, size) => add_replacement s o0 bet price size
+  | None => s
+  end.
+Definition replace_step (acc : lstate * Z) (nr : Z * rstat) : lstate * Z :=
+  match oget (fst nr) (ls_orders (fst acc)) with
+  | None => acc
+  | Some o0 => (with_trade (fst acc) (fst nr) (replace_body (fst nr) o0 (snd nr)),
+                snd acc + match snd nr with RReport (CFailure _) _ => 1 | _ => 0 end)
+  end.
 (* the handler zips the (VIOLATION-filtered) orders with the reports of the instructions that were SENT; the harness gives
    the reports in instruction order, i.e. for the orders that were not EXECUTION_COMPLETE when the call was made *)
 Definition exec_replace (s : lstate) (names : list Z) (reports : list rstat) : lstate :=
-  let '(s1, nf) := fold_left (fun (acc : lstate * Z) nr =>
-      let '(s, nf) := acc in
-      let '(n, RReport c p) := nr in
-      match oget n (ls_orders s) with
-      | None => acc
-      | Some o0 =>
-        let s' := with_trade s n (fun s =>
-            let s := match c with
-                     | CSuccess _ => order_status s n SExecComplete
-                     | CFailure _ => order_status s n SExecutable
-                     | CTimeout => order_status s n SExecutable
-                     end in
-            match p with
-            | Some (bet, price, size) =>
-                let nn := ls_next_name s in
-                let r := new_lorder nn (lo_trade o0) (lo_strat o0) (lo_sel o0) size price (Some bet) in
-                let r := {| lo_name := lo_name r; lo_trade := lo_trade r; lo_strat := lo_strat r; lo_sel := lo_sel r; lo_size := lo_size r; lo_price := lo_price r;
-                            lo_status := SPending; lo_log := [SPending]; lo_complete := false; lo_bet := lo_bet r; lo_async := false; lo_view := None;
-                            lo_place_resp := Some (Some bet, 0, false); lo_in_live := true; lo_in_blotter := true; lo_newprice := None |} in
-                let s := {| ls_orders := ls_orders s ++ [r]; ls_trades := ls_trades s; ls_ctx := ls_ctx s; ls_bet_lookup := ls_bet_lookup s ++ [(Some bet, nn)];
-                            ls_tx := ls_tx s; ls_tx_failed := ls_tx_failed s; ls_next_name := nn + 1; ls_next_trade := ls_next_trade s; ls_complete := ls_complete s |} in
-                order_status s nn SExecutable
-            | None => s
-            end) in
-        (s', nf + match c with CFailure _ => 1 | _ => 0 end)
-      end) (zip (pkg_orders s names) reports) (s, 0) in
-  add_tx s1 (Z.of_nat (length (pkg_orders s1 names))) nf.
+  let acc := fold_left replace_step (zip (pkg_orders s names) reports) (s, 0) in
+  add_tx (fst acc) (Z.of_nat (length (pkg_orders (fst acc) names))) (snd acc).
 
 (* exhausted retries / unknown API error: reset_orders *)
 Definition reset_orders (s : lstate) (names : list Z) (complete : bool) : lstate :=
   fold_left (fun s n => with_trade s n (fun s => order_status s n (if complete then SExecComplete else SExecutable))) (pkg_orders s names) s.
 
 (* ---- order stream ---- *)
-Definition apply_row (s : lstate) (name : Z) (r : row) : lstate :=
-  let s := set_fields s name (fun o => {| lo_name := lo_name o; lo_trade := lo_trade o; lo_strat := lo_strat o; lo_sel := lo_sel o; lo_size := lo_size o; lo_price := lo_price o;
-                                          lo_status := lo_status o; lo_log := lo_log o; lo_complete := lo_complete o;
-                                          lo_bet := if lo_async o then match lo_bet o with None => Some (rw_bet r) | b => b end else lo_bet o; lo_async := lo_async o;
-                                          lo_view := Some r; lo_place_resp := lo_place_resp o; lo_in_live := lo_in_live o; lo_in_blotter := lo_in_blotter o; lo_newprice := lo_newprice o |}) in
-  let s := match oget name (ls_orders s) with
-           | None => s
-           | Some o =>
-               match lo_bet o, lo_status o with
-               | Some _, SPending => order_status s name (if rw_complete r then SExecComplete else SExecutable)
-               | _, SExecutable => if rw_complete r then order_status s name SExecComplete else s
-               | _, _ => s
-               end
-           end in
-  (* complete -> leaves the live list *)
+(* order.update_current_order(row); async orders learn their bet id from the stream *)
+Definition set_view (o : lorder) (r : row) : lorder :=
+  {| lo_name := lo_name o; lo_trade := lo_trade o; lo_strat := lo_strat o; lo_sel := lo_sel o; lo_size := lo_size o; lo_price := lo_price o;
+     lo_status := lo_status o; lo_log := lo_log o; lo_complete := lo_complete o;
+     lo_bet := if lo_async o then match lo_bet o with None => Some (rw_bet r) | b => b end else lo_bet o; lo_async := lo_async o;
+     lo_view := Some r; lo_place_resp := lo_place_resp o; lo_in_live := lo_in_live o; lo_in_blotter := lo_in_blotter o; lo_newprice := lo_newprice o |}.
+(* process_current_order: PENDING with a bet id / EXECUTABLE follow the row; every other status is left alone *)
+Definition row_status (s : lstate) (name : Z) (r : row) : lstate :=
   match oget name (ls_orders s) with
-  | Some o => if lo_complete o then set_fields s name (fun o => {| lo_name := lo_name o; lo_trade := lo_trade o; lo_strat := lo_strat o; lo_sel := lo_sel o; lo_size := lo_size o; lo_price := lo_price o;
-                                                                  lo_status := lo_status o; lo_log := lo_log o; lo_complete := lo_complete o; lo_bet := lo_bet o; lo_async := lo_async o;
-                                                                  lo_view := lo_view o; lo_place_resp := lo_place_resp o; lo_in_live := false; lo_in_blotter := lo_in_blotter o; lo_newprice := lo_newprice o |}) else s
+  | None => s
+  | Some o =>
+      match lo_bet o, lo_status o with
+      | Some _, SPending => order_status s name (if rw_complete r then SExecComplete else SExecutable)
+      | _, SExecutable => if rw_complete r then order_status s name SExecComplete else s
+      | _, _ => s
+      end
+  end.
+Definition set_live (o : lorder) (b : bool) : lorder :=
+  {| lo_name := lo_name o; lo_trade := lo_trade o; lo_strat := lo_strat o; lo_sel := lo_sel o; lo_size := lo_size o; lo_price := lo_price o;
+     lo_status := lo_status o; lo_log := lo_log o; lo_complete := lo_complete o; lo_bet := lo_bet o; lo_async := lo_async o;
+     lo_view := lo_view o; lo_place_resp := lo_place_resp o; lo_in_live := b; lo_in_blotter := lo_in_blotter o; lo_newprice := lo_newprice o |}.
+(* complete -> blotter.complete_order: leaves the live list *)
+Definition leave_live (s : lstate) (name : Z) : lstate :=
+  match oget name (ls_orders s) with
+  | Some o => if lo_complete o then set_fields s name (fun o => set_live o false) else s
   | None => s
   end.
+Definition apply_row (s : lstate) (name : Z) (r : row) : lstate :=
+  leave_live (row_status (set_fields s name (fun o => set_view o r)) name r) name.
 
 (* one row of a snapshot: (order name encoded in the customer ref, known strategy?, strategy, selection, row, size, price) *)
 Record srow := { sr_name : Z; sr_strategy : option Z; sr_sel : Z; sr_row : row; sr_size : Z; sr_price : Z }.
 
+(* create_order_from_current: new trade, order with the exchange's bet id, blotter, runner_context.place, placing() *)
+Definition adopt (s : lstate) (x : srow) (st : Z) : lstate :=
+  let tid := ls_next_trade s in
+  let o := {| lo_name := sr_name x; lo_trade := tid; lo_strat := st; lo_sel := sr_sel x; lo_size := sr_size x; lo_price := sr_price x;
+              lo_status := SPending; lo_log := [SPending]; lo_complete := false; lo_bet := Some (rw_bet (sr_row x)); lo_async := false; lo_view := None; lo_place_resp := None;
+              lo_in_live := true; lo_in_blotter := true; lo_newprice := None |} in
+  {| ls_orders := ls_orders s ++ [o];
+     ls_trades := ls_trades s ++ [{| lt_id := tid; lt_status := TLive; lt_log := []; lt_pending_orders := false; lt_strat := st; lt_sel := sr_sel x |}];
+     ls_ctx := ctx_place tid st (sr_sel x) (ls_ctx s); ls_bet_lookup := ls_bet_lookup s ++ [(Some (rw_bet (sr_row x)), sr_name x)];
+     ls_tx := ls_tx s; ls_tx_failed := ls_tx_failed s; ls_next_name := ls_next_name s; ls_next_trade := tid + 1; ls_complete := ls_complete s |}.
 Definition process_row (s : lstate) (x : srow) : lstate :=
   match oget (sr_name x) (ls_orders s) with
   | None =>
       match sr_strategy x with
       | None => s                                        (* unknown strategy: ignored *)
-      | Some st =>
-          (* create_order_from_current: new trade, order with the exchange's bet id, blotter, runner_context.place, placing() *)
-          let tid := ls_next_trade s in
-          let o := new_lorder (sr_name x) tid st (sr_sel x) (sr_size x) (sr_price x) (Some (rw_bet (sr_row x))) in
-          let o := {| lo_name := lo_name o; lo_trade := tid; lo_strat := st; lo_sel := lo_sel o; lo_size := lo_size o; lo_price := lo_price o;
-                      lo_status := SPending; lo_log := [SPending]; lo_complete := false; lo_bet := lo_bet o; lo_async := false; lo_view := None; lo_place_resp := None;
-                      lo_in_live := true; lo_in_blotter := true; lo_newprice := None |} in
-          let s := {| ls_orders := ls_orders s ++ [o];
-                      ls_trades := ls_trades s ++ [{| lt_id := tid; lt_status := TLive; lt_log := []; lt_pending_orders := false; lt_strat := st; lt_sel := sr_sel x |}];
-                      ls_ctx := ctx_place tid st (sr_sel x) (ls_ctx s); ls_bet_lookup := ls_bet_lookup s ++ [(Some (rw_bet (sr_row x)), sr_name x)];
-                      ls_tx := ls_tx s; ls_tx_failed := ls_tx_failed s; ls_next_name := ls_next_name s; ls_next_trade := tid + 1; ls_complete := ls_complete s |} in
-          apply_row s (sr_name x) (sr_row x)
+      | Some st => apply_row (adopt s x st) (sr_name x) (sr_row x)
       end
   | Some o =>
       match lo_bet o with
@@ -337,6 +346,7 @@ Inductive levent :=
   | LUnknownError (names : list Z)                          (* a non-BetfairError exception: nothing happens *)
   | LSnapshot (rows : list srow)
   | LNop
+  | LPlaceRefused (name tid strat sel size price : Z)      (* strategy / controls refuse a placement: order.violation(), never in the blotter, but listed in trade.orders *)
   | LRefused (name : Z)                                     (* a trading control refuses a cancel/update/replace: order.violation() on the live order *)
   | LRestart.                                               (* a new process: local state gone, the exchange keeps its bets *)
 
@@ -355,6 +365,13 @@ Definition lstep (s : lstate) (e : levent) : lstate :=
   | LUnknownError _ => s
   | LSnapshot rows => process_snapshot s rows
   | LNop => s
+  | LPlaceRefused n t st sl sz p =>
+      let o := new_lorder n t st sl sz p None in
+      let o := {| lo_name := n; lo_trade := t; lo_strat := st; lo_sel := sl; lo_size := sz; lo_price := p;
+                  lo_status := SViolation; lo_log := [SViolation]; lo_complete := true; lo_bet := None; lo_async := false; lo_view := None; lo_place_resp := None;
+                  lo_in_live := false; lo_in_blotter := false; lo_newprice := None |} in
+      {| ls_orders := ls_orders s ++ [o]; ls_trades := ls_trades s; ls_ctx := ls_ctx s; ls_bet_lookup := ls_bet_lookup s;
+         ls_tx := ls_tx s; ls_tx_failed := ls_tx_failed s; ls_next_name := ls_next_name s; ls_next_trade := Z.max (ls_next_trade s) (t + 1); ls_complete := ls_complete s |}
   | LRefused n => order_status s n SViolation
   | LRestart => {| ls_orders := []; ls_trades := []; ls_ctx := []; ls_bet_lookup := []; ls_tx := 0; ls_tx_failed := 0;
                    ls_next_name := ls_next_name s; ls_next_trade := ls_next_trade s; ls_complete := ls_complete s |}
